@@ -216,6 +216,9 @@ func replayOverlayPkg(repo, pkgPattern string, harnessFiles []string, outDir, pr
 					}
 				}
 				extra = append(extra, &ast.GenDecl{Tok: token.VAR, Specs: []ast.Spec{&ast.ValueSpec{Names: []*ast.Ident{ast.NewIdent(target)}, Type: ht}}})
+				// re-entrancy flag: while the harness stub runs, calls of the original function (made by the stub itself,
+				// as the symbolic run allows) reach the real body instead of recursing into the hook
+				extra = append(extra, &ast.GenDecl{Tok: token.VAR, Specs: []ast.Spec{&ast.ValueSpec{Names: []*ast.Ident{ast.NewIdent(target + "__busy")}, Type: ast.NewIdent("bool")}}})
 				hooks = append(hooks, hook{pkgName: pkgName, importPath: importPath, hookVar: target, key: key})
 				var fun ast.Expr = ast.NewIdent(fd.Name.Name + "__verifOrig")
 				oargs := callArgs
@@ -241,15 +244,15 @@ func replayOverlayPkg(repo, pkgPattern string, harnessFiles []string, outDir, pr
 				w.Body = &ast.BlockStmt{List: []ast.Stmt{&ast.ReturnStmt{Results: []ast.Expr{call}}}}
 				if foreign {
 					w.Body = &ast.BlockStmt{List: []ast.Stmt{
-						&ast.IfStmt{Cond: &ast.BinaryExpr{X: ast.NewIdent(target), Op: token.NEQ, Y: ast.NewIdent("nil")}, Body: w.Body},
+						&ast.IfStmt{Cond: hookCond(target), Body: &ast.BlockStmt{List: append(hookEnter(target), &ast.ReturnStmt{Results: []ast.Expr{call}})}},
 						&ast.ReturnStmt{Results: []ast.Expr{origCall}}}}
 				}
 			} else {
 				w.Body = &ast.BlockStmt{List: []ast.Stmt{&ast.ExprStmt{X: call}}}
 				if foreign {
 					w.Body = &ast.BlockStmt{List: []ast.Stmt{
-						&ast.IfStmt{Cond: &ast.BinaryExpr{X: ast.NewIdent(target), Op: token.NEQ, Y: ast.NewIdent("nil")},
-							Body: &ast.BlockStmt{List: []ast.Stmt{&ast.ExprStmt{X: call}, &ast.ReturnStmt{}}}},
+						&ast.IfStmt{Cond: hookCond(target),
+							Body: &ast.BlockStmt{List: append(hookEnter(target), &ast.ExprStmt{X: call}, &ast.ReturnStmt{})}},
 						&ast.ExprStmt{X: origCall}}}
 				}
 			}
@@ -413,4 +416,25 @@ func findPintPackage(repo, name string) string {
 		})
 	}
 	return found
+}
+
+// hookCond: VerifHook_X != nil && !VerifHook_X__busy
+func hookCond(target string) ast.Expr {
+	return &ast.BinaryExpr{
+		X:  &ast.BinaryExpr{X: ast.NewIdent(target), Op: token.NEQ, Y: ast.NewIdent("nil")},
+		Op: token.LAND,
+		Y:  &ast.UnaryExpr{Op: token.NOT, X: ast.NewIdent(target + "__busy")},
+	}
+}
+
+// hookEnter: VerifHook_X__busy = true; defer func() { VerifHook_X__busy = false }()
+func hookEnter(target string) []ast.Stmt {
+	busy := target + "__busy"
+	return []ast.Stmt{
+		&ast.AssignStmt{Lhs: []ast.Expr{ast.NewIdent(busy)}, Tok: token.ASSIGN, Rhs: []ast.Expr{ast.NewIdent("true")}},
+		&ast.DeferStmt{Call: &ast.CallExpr{Fun: &ast.FuncLit{
+			Type: &ast.FuncType{Params: &ast.FieldList{}},
+			Body: &ast.BlockStmt{List: []ast.Stmt{&ast.AssignStmt{Lhs: []ast.Expr{ast.NewIdent(busy)}, Tok: token.ASSIGN, Rhs: []ast.Expr{ast.NewIdent("false")}}}},
+		}}},
+	}
 }
